@@ -4,7 +4,7 @@ that the patch applies, the pinned suite still passes (BASELINE stable_pass), de
 the change; run the named check(s) against the patched tree; store under /verif/seeded/<prop>-<k>/."""
 import json, os, shutil, subprocess, sys, tempfile, xml.etree.ElementTree as ET
 BASE = json.load(open('/root/.vp/BASELINE.json'))
-EXTRA = {'C01': ['C14'], 'C02': ['C01'], 'C10': ['C14'], 'C14': ['C01', 'C02', 'C10'], 'C19': ['C14'], 'C07': [], 'C08': ['C02'], 'C09': []}
+EXTRA = {'C01': ['C14'], 'C02': ['C01'], 'C10': ['C14'], 'C14': ['C01', 'C02', 'C10'], 'C19': ['C14'], 'C07': [], 'C08': ['C02'], 'C09': [], 'C03': ['C17'], 'C18': ['C15']}
 
 
 def suite(wt):
